@@ -652,6 +652,21 @@ func (e *SpecEnv) callExpr(n *ast.CallExpr) SVal {
 			k := e.eval(n.Args[1])
 			ms := mapSortOf(a.Ty)
 			return SVal{Select(Sel(Select(e.st.getHeap(ms), a.T), 0), k.T), tyBool}
+		case "store":
+			a, i, x := e.eval(n.Args[0]), e.eval(n.Args[1]), e.eval(n.Args[2])
+			return SVal{Store(a.T, i.T, e.coerce(x.T, a.T.Sort.Elem)), a.Ty}
+		case "ghost":
+			// ghost(T, x): the ghost record of type T attached to object x (pointer or interface value)
+			T := e.resolveType(n.Args[0])
+			if T == nil {
+				e.fail(n, "ghost: unknown type")
+			}
+			x := e.eval(n.Args[1])
+			ref := x.T
+			if ref.Sort == SIface {
+				ref = Sel(ref, 1)
+			}
+			return SVal{Select(e.st.getHeap(sortOf(T)), ref), T}
 		case "valid":
 			// valid(x): x's Go type invariants (unsigned ranges etc.)
 			a := e.eval(n.Args[0])
